@@ -335,6 +335,25 @@ def main(tier, seed, replay=None):
                         after = snapshot(data)
                         snap_viol.append({"container": cont, "ontology": None, "inference": inf, "advanced": adv, "meta_shacl": meta_, "shapes": "inside the data graph (no shacl_graph argument)",
                                           "api": "validate", "fault_at_effect": None, "data_added": sorted(map(str, after - before))[:6], "data_removed": sorted(map(str, before - after))[:6], "ont_changed": False})
+    # sparql_mode over a caller's graph OBJECT: whatever the mode does with rules and inference (skips them, refuses them), the caller's
+    # objects keep their quads
+    for cont in ("Graph", "Dataset", "ConjunctiveGraph"):
+        for inf in ("none", "rdfs", "owlrl"):
+            for adv in (False, True):
+                for ontk in (None, "Graph"):
+                    data, ont = make_data(cont, split=runs), make_ont(ontk)
+                    sg = shapes_graph(adv, adv)
+                    before = (snapshot(data), snapshot(ont))
+                    try:
+                        pyshacl.validate(data, shacl_graph=sg, ont_graph=ont, inference=inf, advanced=adv, sparql_mode=True)
+                    except Exception:
+                        pass
+                    runs += 1
+                    after = (snapshot(data), snapshot(ont))
+                    if after != before:
+                        snap_viol.append({"container": cont, "ontology": ontk, "inference": inf, "advanced": adv, "sparql_mode": True, "api": "validate", "fault_at_effect": None,
+                                          "data_added": sorted(map(str, (after[0] or set()) - (before[0] or set())))[:6], "data_removed": sorted(map(str, (before[0] or set()) - (after[0] or set())))[:6],
+                                          "ont_changed": after[1] != before[1]})
     # owl:imports: with do_owl_imports=True the documents an ontology (or shapes graph) imports are loaded as well - into copies, the
     # caller's graph objects keep their triples.  Imports are local files here (no network).
     import shutil, tempfile
@@ -395,7 +414,7 @@ def main(tier, seed, replay=None):
     cov = F.proof_coverage(ob, ["translator/t1.py + translator/py2mini.py (fail-closed Python-ast -> PyMini)", "coq/Mini/PyMini.v semantics and callee summaries (clone_graph, inoculate, inoculate_dataset, _run_pre_inference, apply_rules, apply_functions)"])
     cov.update({
         "evaluations": len(bodies) + runs, "distinct_nontrivial": len({tuple(m[3]) for m in meta if m[3]}) + runs,
-        "rule": "(1) Tie A: for sampled valuations of the 1280-element domain x {validate, shacl_rules} x {no fault, fault at effect 0-3} the real Validator/RuleExpandRunner runs with recording wrappers around the white-listed callees and the recorded Clone/Write/Reg/Raised trace must equal the trace of the generated PyMini program; (2) the property on the real code: {Graph, Dataset, ConjunctiveGraph} x {no ontology, Graph, Dataset, empty Graph, empty Dataset} x {none, rdfs, owlrl, both} x advanced x iterate_rules x {validate, shacl_rules} x {normal return, failure injected after the k-th effect} x rule sets {triple + SPARQL rule, only SPARQL rules, only triple rules}, plus shapes kept inside the data graph (no shacl_graph argument) x meta_shacl on/off x inference x advanced, plus ontologies (Graph, Dataset) that owl:import a local file with do_owl_imports=True through both APIs, plus containers that already hold graphs named urn:pyshacl:inoculation / urn:pyshacl:inference; quad-level snapshot of the caller's objects before/after; non-trivial = a run in which a writer ran",
+        "rule": "(1) Tie A: for sampled valuations of the 1280-element domain x {validate, shacl_rules} x {no fault, fault at effect 0-3} the real Validator/RuleExpandRunner runs with recording wrappers around the white-listed callees and the recorded Clone/Write/Reg/Raised trace must equal the trace of the generated PyMini program; (2) the property on the real code: {Graph, Dataset, ConjunctiveGraph} x {no ontology, Graph, Dataset, empty Graph, empty Dataset} x {none, rdfs, owlrl, both} x advanced x iterate_rules x {validate, shacl_rules} x {normal return, failure injected after the k-th effect} x rule sets {triple + SPARQL rule, only SPARQL rules, only triple rules}, plus shapes kept inside the data graph (no shacl_graph argument) x meta_shacl on/off x inference x advanced, plus sparql_mode runs over graph objects x inference x advanced x ontology, plus ontologies (Graph, Dataset) that owl:import a local file with do_owl_imports=True through both APIs, plus containers that already hold graphs named urn:pyshacl:inoculation / urn:pyshacl:inference; quad-level snapshot of the caller's objects before/after; non-trivial = a run in which a writer ran",
         "distribution": {"tie_a_traces": len(bodies), "tie_a_disagreements": len(failed), "snapshot_runs": runs, "snapshot_violations": len(snap_viol),
                          "distinct_traces": len({tuple(m[3]) for m in meta})},
         "samples": [{"api": m[0], "valuation": m[1], "fault": m[2], "recorded": m[3]} for m in meta[:3]],
